@@ -289,6 +289,24 @@ func Endorse(doc *epb.VMGoldenMeasurement, k *rsa.PrivateKey) *epb.VMLaunchEndor
 	return &epb.VMLaunchEndorsement{SerializedUefiGolden: b, Signature: SignPSS(k, b)}
 }
 
+// SeqGetter answers the k-th request with the k-th body (the last one from then on), whatever the URL.
+type SeqGetter struct {
+	mu     sync.Mutex
+	Bodies [][]byte
+	n      int
+}
+
+func (g *SeqGetter) Get(string) ([]byte, error) {
+	g.mu.Lock()
+	defer g.mu.Unlock()
+	i := g.n
+	g.n++
+	if i >= len(g.Bodies) {
+		i = len(g.Bodies) - 1
+	}
+	return g.Bodies[i], nil
+}
+
 // MapGetter serves fixed bodies per URL and records the URLs requested.
 type MapGetter struct {
 	mu   sync.Mutex
